@@ -151,6 +151,12 @@ def index(x, key):
     if len(where_negative_step) > 0:
         from cubed.array_api.manipulation_functions import flip
 
+        # integer indexes have removed dimensions, so renumber the axes to flip
+        where_negative_step = tuple(
+            i - sum(isinstance(ia, ndindex.Integer) for ia in idx.args[:i])
+            for i in where_negative_step
+        )
+
         out = flip(out, axis=where_negative_step)
 
     for axis in where_newaxis:
